@@ -46,12 +46,14 @@ func DefaultCfg() Cfg {
 
 // G generates one module.
 type G struct {
-	adv  *AdvNames
-	rt   *rapid.T
-	cfg  Cfg
-	M    *am.Module
-	used map[string]bool
-	n    int
+	lastBundles   []*am.Bundle
+	lastBundleBlk *am.Block
+	adv           *AdvNames
+	rt            *rapid.T
+	cfg           Cfg
+	M             *am.Module
+	used          map[string]bool
+	n             int
 	// Features counts generated constructs (histogram).
 	Features map[string]int
 	// current function state
